@@ -42,8 +42,8 @@ ASSUMPTIONS = [
     "runs hit by the recorded Anderson finding are excluded by using aa_depth = 0 here (C04 owns that finding)",
 ]
 FLOORS = {
-    "quick": {"identity_zero": 90, "swap_symmetric": 180, "scaling_linear": 250, "first_moment_bound": 650, "true_minimum_bound": 140, "thin_grid_unique_flux": 150, "frontend_equals_backend": 400, "emd": 300, "emd_object_reused_across_cases": 20, "options_dictionary_reused": 50},
-    "thorough": {"identity_zero": 450, "swap_symmetric": 1300, "scaling_linear": 1800, "first_moment_bound": 6000, "true_minimum_bound": 1100, "thin_grid_unique_flux": 2300, "frontend_equals_backend": 3000, "emd": 2000, "emd_object_reused_across_cases": 200, "options_dictionary_reused": 500},
+    "quick": {"emd_series_equals_per_slice": 60, "identity_zero": 90, "swap_symmetric": 180, "scaling_linear": 250, "first_moment_bound": 650, "true_minimum_bound": 140, "thin_grid_unique_flux": 150, "frontend_equals_backend": 400, "emd": 300, "emd_object_reused_across_cases": 20, "options_dictionary_reused": 50},
+    "thorough": {"emd_series_equals_per_slice": 600, "identity_zero": 450, "swap_symmetric": 1300, "scaling_linear": 1800, "first_moment_bound": 6000, "true_minimum_bound": 1100, "thin_grid_unique_flux": 2300, "frontend_equals_backend": 3000, "emd": 2000, "emd_object_reused_across_cases": 200, "options_dictionary_reused": 500},
 }
 SHARD_TIMEOUT = {"quick": 1500, "thorough": 6000}
 LAW_GRIDS = [(9,), (30,), (4, 5), (1, 12), (8, 8), (12, 10), (3, 3, 3), (4, 5, 6), (2, 1, 9), (17, 16)]
@@ -205,6 +205,20 @@ def run_shard(spec, R):
                     R.check(abs(ds - cc * d12) <= 1e-5 * cc * sc, "emd", {**desc, "law": "scaling", "c": cc, "scaled": ds, "base": d12})
                 fm = TR.first_moment_bound(M, M.flat(b - a))
                 R.check(d12 >= fm - 1e-5 * max(fm, sc), "emd", {**desc, "law": "first_moment", "distance": d12, "bound": fm})
+                # two pairs as the two time slices of a pair of series images: one distance per slice, equal to the
+                # distance of that slice taken alone
+                a2, b2 = wass.mass_pair(rng, shape, kind)
+                if not np.array_equal(a2, b2):
+                    dims_s = [shape[d] * h[d] for d in range(dim)]
+                    S1 = darsia.Image(np.stack([a, a2], axis=-1).astype(float), space_dim=2, dimensions=dims_s, scalar=True, series=True, time=[0.0, 1.0])
+                    S2 = darsia.Image(np.stack([b, b2], axis=-1).astype(float), space_dim=2, dimensions=dims_s, scalar=True, series=True, time=[0.0, 1.0])
+                    p1, p2 = wass.images(darsia, a2, b2, h)
+                    ok, trio = R.guarded("emd", lambda: (emd(S1, S2), emd(p1, p2)))
+                    if ok:
+                        ds_, d_b = np.asarray(trio[0], float), float(trio[1])
+                        R.check(ds_.shape == (2,) and abs(ds_[0] - d12) <= 1e-5 * sc and abs(ds_[1] - d_b) <= 1e-5 * max(abs(d_b), 1e-300), "emd",
+                                lambda: {**desc, "law": "series_equals_per_slice", "series": ds_.tolist(), "slices_alone": [d12, d_b]}, group="series")
+                        R.count("emd_series_equals_per_slice")
                 fe = darsia.wasserstein_distance(m1, m2, "cv2.emd")
                 R.check(float(fe) == float(d12), "frontend_equals_backend", {**desc, "frontend": float(fe), "backend": d12})
                 R.sig(["emd", c["grid"], kind], True, cls="emd")
